@@ -58,6 +58,7 @@ type c42Window struct{ from, to int64 } // inclusive, milliseconds
 type c42Series struct {
 	metric  model.Metric
 	windows []c42Window
+	hist    bool // the query returns native histogram samples for this series
 }
 
 type c42World struct {
@@ -105,13 +106,23 @@ func (w *c42World) eval(tenant string, qi int, start, end, step int64, shardTota
 			continue
 		}
 		var vals []model.SamplePair
+		var hists []model.SampleHistogramPair
 		for t := start; t <= end; t += step {
-			if c42Present(s, t) {
-				vals = append(vals, model.SamplePair{Timestamp: model.Time(t), Value: model.SampleValue(c42Value(tenant, qi, si, t))})
+			if !c42Present(s, t) {
+				continue
+			}
+			v := model.SampleValue(c42Value(tenant, qi, si, t))
+			if s.hist {
+				hists = append(hists, model.SampleHistogramPair{Timestamp: model.Time(t), Histogram: &model.SampleHistogram{
+					Count: model.FloatString(v), Sum: model.FloatString(v / 2),
+					Buckets: model.HistogramBuckets{{Boundaries: 0, Lower: 0.5, Upper: 1, Count: model.FloatString(v)}},
+				}})
+			} else {
+				vals = append(vals, model.SamplePair{Timestamp: model.Time(t), Value: v})
 			}
 		}
-		if len(vals) > 0 {
-			out = append(out, &model.SampleStream{Metric: s.metric, Values: vals})
+		if len(vals) > 0 || len(hists) > 0 {
+			out = append(out, &model.SampleStream{Metric: s.metric, Values: vals, Histograms: hists})
 		}
 	}
 	// a Prometheus-compatible querier returns the matrix sorted by label set
@@ -321,9 +332,6 @@ func c42Compare(got, want model.Matrix) string {
 			return "series " + k + " appears twice in the response"
 		}
 		gm[k] = s
-		if len(s.Histograms) > 0 {
-			return "response invents histogram samples for " + k
-		}
 	}
 	for _, w := range want {
 		k := w.Metric.String()
@@ -342,6 +350,37 @@ func c42Compare(got, want model.Matrix) string {
 				return fmt.Sprintf("sample %d of %s has t=%d, want t=%d\n   got  %s\n   want %s", i, k, int64(g.Values[i].Timestamp), int64(w.Values[i].Timestamp), c42RenderStream(g), c42RenderStream(w))
 			case math.Float64bits(float64(g.Values[i].Value)) != math.Float64bits(float64(w.Values[i].Value)):
 				return fmt.Sprintf("sample t=%d of %s has value %v, want %v", int64(w.Values[i].Timestamp), k, g.Values[i].Value, w.Values[i].Value)
+			}
+		}
+	}
+	for _, w := range want {
+		k := w.Metric.String()
+		var g *model.SampleStream
+		for _, x := range got {
+			if x.Metric.String() == k {
+				g = x
+			}
+		}
+		render := func(hs []model.SampleHistogramPair) string {
+			var ts []string
+			for _, h := range hs {
+				ts = append(ts, strconv.FormatInt(int64(h.Timestamp), 10))
+			}
+			return "[" + strings.Join(ts, " ") + "]"
+		}
+		for i := 0; i < len(g.Histograms) || i < len(w.Histograms); i++ {
+			switch {
+			case i >= len(g.Histograms):
+				return fmt.Sprintf("histogram sample t=%d of %s is missing (got %d, want %d)\n   got  %s\n   want %s", int64(w.Histograms[i].Timestamp), k, len(g.Histograms), len(w.Histograms), render(g.Histograms), render(w.Histograms))
+			case i >= len(w.Histograms):
+				return fmt.Sprintf("extra histogram sample t=%d of %s (got %d, want %d)\n   got  %s\n   want %s", int64(g.Histograms[i].Timestamp), k, len(g.Histograms), len(w.Histograms), render(g.Histograms), render(w.Histograms))
+			case g.Histograms[i].Timestamp != w.Histograms[i].Timestamp:
+				return fmt.Sprintf("histogram sample %d of %s has t=%d, want t=%d\n   got  %s\n   want %s", i, k, int64(g.Histograms[i].Timestamp), int64(w.Histograms[i].Timestamp), render(g.Histograms), render(w.Histograms))
+			}
+			gh, wh := g.Histograms[i].Histogram, w.Histograms[i].Histogram
+			if gh == nil || gh.Count != wh.Count || gh.Sum != wh.Sum || len(gh.Buckets) != len(wh.Buckets) ||
+				gh.Buckets[0].Count != wh.Buckets[0].Count || gh.Buckets[0].Lower != wh.Buckets[0].Lower || gh.Buckets[0].Upper != wh.Buckets[0].Upper {
+				return fmt.Sprintf("histogram sample t=%d of %s is %v, want %v", int64(w.Histograms[i].Timestamp), k, gh, wh)
 			}
 		}
 	}
@@ -683,6 +722,9 @@ func c42RenderHistory(cfg c42Config, world *c42World, reqs []c42Request) string 
 		fmt.Fprintf(&sb, "\n  query %q:", q)
 		for _, s := range world.series[qi] {
 			fmt.Fprintf(&sb, " %s@", s.metric)
+			if s.hist {
+				sb.WriteString("hist")
+			}
 			for _, w := range s.windows {
 				fmt.Fprintf(&sb, "[%d,%d]", w.from, w.to)
 			}
@@ -731,6 +773,7 @@ func c42GenSeries(rt *rapid.T, w *c42World, anchor, unit int64, points []int64) 
 			if rapid.Bool().Draw(rt, "named") {
 				s.metric["__name__"] = "m"
 			}
+			s.hist = rapid.IntRange(0, 3).Draw(rt, "nativeHistogram") == 0
 			switch rapid.IntRange(0, 3).Draw(rt, "presence") {
 			case 0:
 				s.windows = []c42Window{{math.MinInt64 / 2, math.MaxInt64 / 2}}
@@ -930,6 +973,14 @@ func TestVerifC42(t *testing.T) {
 		}
 		if out.issued == 0 {
 			return
+		}
+		for _, ss := range world.series {
+			for _, x := range ss {
+				if x.hist {
+					out.classes = append(out.classes, "native-histogram-series")
+					break
+				}
+			}
 		}
 		rec.Case(c42RenderHistory(cfg, world, reqs), out.cachedReq > 0, out.classes...)
 	})
